@@ -174,8 +174,16 @@ Less(a, b) ==
 \* The name mapping.  A valid name goes to Prefix/name (valid again, under the prefix);
 \* any other caller string must go to something that is not a valid repository name:
 \* the characters it is allowed to become are whatever fails the grammar.
-SubName(n) == Prefix \o "/" \o n
+SubNameP(p, n) == p \o "/" \o n
+SubName(n) == SubNameP(Prefix, n)
 SubChars(n) == PrefixChars \o Chars[n]
+\* Nested views.  Sub(Sub(r, p1), p2) hands a name first to the outer view (p2), whose result
+\* the inner view (p1) prefixes again: chain = <<p1, p2>>, innermost first, is the one view
+\* with prefix p1/p2.  The trace specification requires Prefix = ChainPrefix(chain) of every
+\* scenario, so that a stack of views is judged as SubApply under the composed prefix.
+RECURSIVE ChainPrefix(_)
+ChainPrefix(chain) == IF Len(chain) = 1 THEN chain[1]
+                      ELSE ChainPrefix(SubSeq(chain, 1, Len(chain) - 1)) \o "/" \o chain[Len(chain)]
 OpNames(o) == (IF "r" \in DOMAIN o /\ o.op # "ListRepos" THEN {o.r} ELSE {}) \cup (IF o.op = "MountBlob" THEN {o.from} ELSE {})
 MapOp(o) == IF o.op = "MountBlob" THEN [o EXCEPT !.r = SubName(o.r), !.from = SubName(o.from)]
             ELSE [o EXCEPT !.r = SubName(o.r)]
@@ -198,8 +206,16 @@ BStart(vstart) ==
   ELSE 2 * (Cardinality(BeforePrefix) + Cardinality({y \in ViewRepos : ViewPos.r[y] < vstart})) + 1
 
 \* Scopes: [unl |-> BOOLEAN, set |-> set of <<type, resource, action>>].
-RewriteTriple(t) == IF t[1] = "repository" THEN <<t[1], (IF t[2] = "" THEN "" ELSE SubName(t[2])), t[3]>> ELSE t
-SubScope(sc) == IF sc.unl THEN sc ELSE [unl |-> FALSE, set |-> {RewriteTriple(t) : t \in sc.set}]
+RewriteTripleP(p, t) == IF t[1] = "repository" THEN <<t[1], (IF t[2] = "" THEN "" ELSE SubNameP(p, t[2])), t[3]>> ELSE t
+SubScopeP(p, sc) == IF sc.unl THEN sc ELSE [unl |-> FALSE, set |-> {RewriteTripleP(p, t) : t \in sc.set}]
+RewriteTriple(t) == RewriteTripleP(Prefix, t)
+SubScope(sc) == SubScopeP(Prefix, sc)
+\* composing two views = the view under the composed prefix (names, and scopes element-wise)
+ComposeOK(p1, p2, names, scopes) ==
+  LET p == ChainPrefix(<<p1, p2>>) IN
+  /\ \A n \in names : SubNameP(p1, SubNameP(p2, n)) = SubNameP(p, n)
+  /\ \A sc \in scopes : SubScopeP(p1, SubScopeP(p2, sc)) = SubScopeP(p, sc)
+  /\ p # ChainPrefix(<<p2, p1>>) \/ p1 = p2
 
 StripItems(items) == LET under == SelectSeq(items, LAMBDA x : x \in Image) IN [i \in 1..Len(under) |-> Strip(under[i])]
 
